@@ -125,7 +125,7 @@ class Ctx(object):
         shutil.rmtree(self.scratch, ignore_errors=True)
 
     # ------------------------------------------------------------------- TLC
-    def tlc(self, module, cfg, workers=16, env=None, timeout=1500, simulate=None,
+    def tlc(self, module, cfg, workers=16, env=None, timeout=900, simulate=None,
             coverage=False, expect=None, depth=None, label=None, extra=None, dfs=False):
         """Run TLC on spec/<module>.tla with the given cfg text.
 
